@@ -23,7 +23,7 @@ MIN_NONTRIVIAL = {"quick": 800, "thorough": 8000}
 REQUIRED_FEATURES = ["name:weight", "name:KR", "name:VC", "name:VC_SQRT", "name:custom", "divisive:None", "divisive:True",
                      "divisive:False", "window:rectangular", "window:diagonal-square", "window:empty", "form:dense",
                      "form:sparse", "form:pixels", "form:pixels-join", "missing-column", "cli:dump-b", "mode:square",
-                     "mode:symm", "stored-by-balance_cooler"]
+                     "mode:symm", "stored-by-balance_cooler", "cli:dump-b:fill-lower", "cli:dump-b:region"]
 
 NAMES = ["weight", "KR", "VC", "VC_SQRT", "myw", "ICE_2"]
 
@@ -31,10 +31,11 @@ NAMES = ["weight", "KR", "VC", "VC_SQRT", "myw", "ICE_2"]
 def plan(tier, seed):
     if tier == "quick":
         return [{"kind": "exh", "n": [5, 4, 3, 5, 4, 5][i % 6], "sub": i} for i in range(12)] + \
-               [{"kind": "sampled", "n": 14, "windows": 250, "sub": 100 + i} for i in range(3)] + [{"kind": "cli", "cases": 6}]
+               [{"kind": "sampled", "n": 14, "windows": 250, "sub": 100 + i} for i in range(3)] + \
+               [{"kind": "cli", "cases": 8, "sub": 200 + i} for i in range(3)]
     return [{"kind": "exh", "n": [8, 7, 6, 7, 8, 5][i % 6], "sub": i} for i in range(48)] + \
            [{"kind": "sampled", "n": [14, 30, 60][i % 3], "windows": 2500, "sub": 100 + i} for i in range(16)] + \
-           [{"kind": "cli", "cases": 60}]
+           [{"kind": "cli", "cases": 40, "sub": 200 + i} for i in range(6)]
 
 
 def run(ctx, shard):
@@ -53,14 +54,15 @@ def gen_weights(rng, n):
     return w
 
 
-def build(ctx, rng, n, symm, names, via_balance=False):
+def build(ctx, rng, n, symm, names, via_balance=False, sparse=False):
     import cooler
 
     nch = 1 if n < 4 else int(rng.integers(1, 4))
     cuts = sorted(rng.choice(np.arange(1, n), size=nch - 1, replace=False).tolist()) if nch > 1 else []
     bounds = [0] + cuts + [n]
     bt = [[f"c{i}", list(range(0, (b - a) * 10 + 1, 10))] for i, (a, b) in enumerate(zip(bounds[:-1], bounds[1:]))]
-    P = gen.gen_pixels(rng, n, symm, ["dense", "sparse70", "sparse30", "emptyrows"][int(rng.integers(4))])
+    P = gen.gen_pixels(rng, n, symm, ["dense", "sparse70", "sparse30", "emptyrows"][int(rng.integers(4))]
+                       if not sparse else "sparse05")
     W = {nm: gen_weights(rng, n) for nm in names}
     path = ctx.path()
     make_cooler(path, bt, P, symm=symm, bins_extra=W)
@@ -199,15 +201,15 @@ def run_cli(ctx, shard):
     from click.testing import CliRunner
     from cooler.cli import cli
 
-    rng = ctx.rng("cli")
+    rng = ctx.rng("cli", shard.get("sub", 0))
     for k in range(shard["cases"]):
-        cid = f"cli:{k}"
+        cid = f"cli:{shard.get('sub', 0)}:{k}"
         if not ctx.want(cid):
             continue
-        n = int(rng.integers(3, 12))
+        n = int(rng.integers(3, 12)) if k % 2 else int(rng.integers(20, 70))     # also: many bins, few pixels per chunk
         symm = bool(k % 3 != 2)
         has_weight = k % 5 != 4
-        path, bt, P, W = build(ctx, rng, n, symm, ["weight"] if has_weight else ["KR"])
+        path, bt, P, W = build(ctx, rng, n, symm, ["weight"] if has_weight else ["KR"], sparse=bool(k % 2 == 0))
         with ctx.case(cid, {"n": n, "symm": symm, "bt": bt, "has_weight": has_weight}) as c:
             c.feature("cli:dump-b")
             res = CliRunner().invoke(cli, ["dump", "-b", "--float-format", ".17g", "--na-rep", "nan", path])
@@ -230,6 +232,41 @@ def run_cli(ctx, shard):
                         (np.isnan(bal) and np.isnan(w[3])) or np.isclose(bal, w[3], rtol=1e-12, atol=0))
             c.check(ok, "dump-balanced-wrong", "`cooler dump -b` rows != raw*w1*w2 of the generated data",
                     lambda: {"got": rows[:10], "want": want[:10]})
+            # with --fill-lower / row and column regions / small chunks (chunks then hold mirrored records)
+            clr = cooler.Cooler(path)
+            D = model.dense(P, n, symm)
+            chroms = [(c_, e[-1]) for c_, e in bt]
+            for rep in range(8):
+                (ca, La), (cb, Lb) = chroms[int(rng.integers(len(chroms)))], chroms[int(rng.integers(len(chroms)))]
+                args = ["dump", "-b", "--float-format", ".17g", "--na-rep", "nan", "-k", str(int([1, 2, 5, 10**6][rep % 4]))]
+                fill = bool(symm and rep % 2 == 0)
+                if fill:
+                    args.append("--fill-lower")
+                i0, i1, j0, j1 = 0, n, 0, n
+                if rep >= 2:
+                    s1 = int(rng.integers(0, La)); e1 = int(rng.integers(s1 + 1, La + 1))
+                    s2 = int(rng.integers(0, Lb)); e2 = int(rng.integers(s2 + 1, Lb + 1))
+                    args += ["-r", f"{ca}:{s1}-{e1}", "-r2", f"{cb}:{s2}-{e2}"]
+                    i0, i1 = (int(x) for x in clr.extent((ca, s1, e1))); j0, j1 = (int(x) for x in clr.extent((cb, s2, e2)))
+                res2 = CliRunner().invoke(cli, args + [path])
+                c.feature("cli:dump-b:fill-lower" if fill else "cli:dump-b:region")
+                if res2.exit_code != 0:
+                    c.fail("dump-b-failed" + (":fill-lower" if fill else ""), f"`cooler {' '.join(args)}` exit {res2.exit_code}: "
+                           f"{type(res2.exception).__name__}: {res2.exception}")
+                    continue
+                got = sorted((int(f[0]), int(f[1]), int(f[2]), float(f[3]) if f[3] not in ("", "nan") else float("nan"))
+                             for f in (ln.split("\t") for ln in res2.output.strip("\n").split("\n") if ln))
+                if fill:
+                    recs = [(i, j, int(D[i, j])) for i in range(i0, i1) for j in range(j0, j1) if D[i, j] != 0]
+                else:
+                    recs = [(i, j, P[(i, j)]) for (i, j) in sorted(P) if i0 <= i < i1 and j0 <= j < j1]
+                wantb = sorted((i, j, v, v * W["weight"][i] * W["weight"][j]) for i, j, v in recs)
+                okb = len(got) == len(wantb) and all(
+                    g[:3] == w_[:3] and ((np.isnan(g[3]) and np.isnan(w_[3])) or np.isclose(g[3], w_[3], rtol=1e-12, atol=0))
+                    for g, w_ in zip(got, wantb))
+                c.check(okb, "dump-balanced-wrong" + (":fill-lower" if fill else ":region"),
+                        f"`cooler {' '.join(args)}` rows != raw*w1*w2 over the selected window",
+                        lambda: {"got": got[:8], "want": wantb[:8]})
             c.nontrivial("cli", cid, n, symm)
             ctx.sample({"cli": "cooler dump -b", "n": n, "rows": len(rows)}, limit=2)
         os.remove(path)
